@@ -1,15 +1,19 @@
 """C16 - result archives reload to the sets that were written.
 
-Decided here (the I/O round trip itself is not decided; this is writer / reader table agreement):
-  C16-R1  entry naming: build_result_archive writes each result under `<label>.bdd`; load_bdd_bundle accepts exactly
-          the entries whose extension is `bdd` and recovers the label with strip_suffix(".bdd") (one suffix, once);
-          the set is serialised with Bdd::write_as_string and parsed with Bdd::from_string (L8) and wrapped with the
-          caller's symbolic context; the loaded map is keyed by the recovered label;
-  C16-R2  fixed entries: both archive builders write `model.aeon` (the model text) and `formulae.txt` (one formula per
-          line, in the order given) exactly once, after the results;
-  C16-R3  label / line correspondence: analyse_formulae stores result i under `formula-<i>` with i the enumerate
-          counter of the loop that evaluates tree i (no arithmetic), trees are pushed in the order of the input
-          formulae, nothing reorders either list, and the formula list archived is the input list."""
+Decided here (the I/O round trip itself is not decided; this is writer / reader agreement):
+  C16-R1  entry naming: the *effect trace* of the zip writer (the chain of operations applied to it, in order, loops and iterator
+          closures included) of build_result_archive starts with one loop over the results that opens `<label><suffix>` and
+          writes that label's set with Bdd::write_as_string; load_bdd_bundle stores, under the entry name with exactly that
+          suffix stripped once, Bdd::from_string (L8) of that entry's content wrapped with the caller's symbolic context; an
+          entry is loaded iff its extension is the writer's (the filter condition is evaluated for the extensions `bdd`,
+          `txt`, `BDD` and none);
+  C16-R2  fixed entries: after the results both archive builders write `model.aeon` (the model text) and `formulae.txt`
+          (one formula per line, in the order given) exactly once, then finish - read off the effect trace, so a builder that
+          delegates to the other one is the same;
+  C16-R3  label / line correspondence: analyse_formulae stores result i under `formula-<i>` with i the enumerate counter of
+          the loop over the list of trees built once per input formula in input order (no filter, no reordering), the value
+          stored is eval_node of the element at that position, the archive receives exactly that map, the model text of the
+          network and the input formulae."""
 import effects
 import evalnode as E
 import norm
